@@ -197,6 +197,38 @@ func loweredFeatures(c Case) map[jsref.Feature]bool {
 	return m
 }
 
+// overEdition lists, sorted, the census features of an emitted file that are newer than the case's language
+// target and not covered by a `true` override ("feature(ESyyyy)@offset"). A hashbang is not counted: the
+// line is consumed by the OS / Node's loader, not by the language; esbuild documents that it preserves it.
+func overEdition(c Case, prog *jsref.Program) []string {
+	ed := editionOf(c.Target)
+	var over []string
+	for f, off := range prog.Features {
+		fe := jsref.FeatureEdition(f)
+		if f == jsref.FeatHashbang {
+			continue
+		}
+		if f == jsref.FeatAsyncFunction && onlyTopLevelAwaits(prog) {
+			continue // the census notes every `await` as async-function; these are all top-level awaits, judged as top-level-await
+		}
+		if fe > ed && fe < 9999 {
+			allowed := false
+			for _, s := range c.Supported {
+				for _, jf := range featureMap[s] {
+					if jf == f {
+						allowed = true
+					}
+				}
+			}
+			if !allowed {
+				over = append(over, fmt.Sprintf("%s(ES%d)@%d", f, fe, off))
+			}
+		}
+	}
+	sort.Strings(over)
+	return over
+}
+
 // overEditionNames returns, sorted, the esbuild feature names of the program's features that are newer
 // than edition ed, and whether every such feature has an esbuild name at all.
 func overEditionNames(p *jsref.Program, ed int) (names []string, allNamed bool) {
@@ -311,28 +343,7 @@ func judge(c Case) vdrv.Verdict {
 		}
 		// (1) language target: census ⊆ edition
 		if c.Target != "" {
-			ed := editionOf(c.Target)
-			var over []string
-			for f, off := range prog.Features {
-				fe := jsref.FeatureEdition(f)
-				if f == jsref.FeatHashbang {
-					continue // a hashbang line is consumed by the OS / Node's loader, not by the language; esbuild keeps it on purpose
-				}
-				if fe > ed && fe < 9999 {
-					allowed := false
-					for _, s := range c.Supported {
-						for _, jf := range featureMap[s] {
-							if jf == f {
-								allowed = true
-							}
-						}
-					}
-					if !allowed {
-						over = append(over, fmt.Sprintf("%s(ES%d)@%d", f, fe, off))
-					}
-				}
-			}
-			sort.Strings(over)
+			over := overEdition(c, prog)
 			if len(over) > 0 {
 				if warned {
 					cls = append(cls, "newer-syntax-with-warning")
@@ -350,7 +361,11 @@ func judge(c Case) vdrv.Verdict {
 							return v
 						}
 					}
-					return vdrv.Fail(fmt.Sprintf("output %s for target %s contains newer syntax without a diagnostic: %s", name, c.Target, strings.Join(over, ", ")), "only syntax up to "+c.Target, out)
+					v := vdrv.Fail(fmt.Sprintf("output %s for target %s contains newer syntax without a diagnostic: %s", name, c.Target, strings.Join(over, ", ")), "only syntax up to "+c.Target, out)
+					if ierr == nil && forAwaitLeftInLoweredAsync(c, inProg, prog, isModule) {
+						v.Known = "C14-for-await-kept-in-lowered-async-function"
+					}
+					return v
 				}
 			}
 			checked++
@@ -389,6 +404,15 @@ func judge(c Case) vdrv.Verdict {
 							}) {
 							v := vdrv.Fail("node "+NodeV[c.NodeMajor]+" rejects `X.#field = value` that esbuild placed after the class body: "+r[0], "parses", out)
 							v.Known = "C14-private-static-field-assigned-outside-class"
+							return v
+						}
+						if strings.Contains(r[0], "'super' keyword unexpected here") && ierr == nil &&
+							superInLoweredArrow(c, inProg, prog, func(repaired string) bool {
+								rr, e := w.ParseAll([]string{stripLeadingHashbang(repaired)}, g)
+								return e == nil && len(rr) == 1 && rr[0] == "ok"
+							}) {
+							v := vdrv.Fail("node "+NodeV[c.NodeMajor]+" rejects `super` inside the function expression that replaced an arrow function: "+r[0], "parses", out)
+							v.Known = "C14-super-in-lowered-arrow"
 							return v
 						}
 						if c.NodeMajor < 14 && hasBigIntPropertyKey(c.Code) {
